@@ -19,8 +19,20 @@ import (
 	"fmt"
 	"github.com/echovault/sugardb/internal"
 	"github.com/echovault/sugardb/internal/constants"
+	"github.com/gobwas/glob"
 	"strings"
 )
+
+// validatePatterns reports the first pattern that is not a well-formed glob, so that a command naming
+// several patterns is refused as a whole instead of failing after it has handled some of them.
+func validatePatterns(patterns []string) error {
+	for _, pattern := range patterns {
+		if _, err := glob.Compile(pattern); err != nil {
+			return fmt.Errorf("invalid pattern %q: %v", pattern, err)
+		}
+	}
+	return nil
+}
 
 func handleSubscribe(params internal.HandlerFuncParams) ([]byte, error) {
 	pubsub, ok := params.GetPubSub().(*PubSub)
@@ -35,6 +47,11 @@ func handleSubscribe(params internal.HandlerFuncParams) ([]byte, error) {
 	}
 
 	withPattern := strings.EqualFold(params.Command[0], "psubscribe")
+	if withPattern {
+		if err := validatePatterns(channels); err != nil {
+			return nil, err
+		}
+	}
 	pubsub.Subscribe(params.Context, params.Connection, channels, withPattern)
 
 	return nil, nil
@@ -49,6 +66,11 @@ func handleUnsubscribe(params internal.HandlerFuncParams) ([]byte, error) {
 	channels := params.Command[1:]
 
 	withPattern := strings.EqualFold(params.Command[0], "punsubscribe")
+	if withPattern {
+		if err := validatePatterns(channels); err != nil {
+			return nil, err
+		}
+	}
 
 	return pubsub.Unsubscribe(params.Context, params.Connection, channels, withPattern), nil
 }
